@@ -120,6 +120,7 @@ CapsVals == << << >>,
               << 102, 82, 68, 69, 71 >>,
               << 114 >>,
               << 70 >>,
+              << 255, 80, 102, 82 >>, << 197, 130, 88, 102, 82 >>, << 102, 228, 184, 150, 82 >>, << 240, 159, 154, 128, 78 >>, << 0, 76 >>, << 239, 191, 189, 79 >>,
               Fill(68, 97), Fill(69, 97), Fill(71, 97), Fill(102, 97), Fill(81, 97) \o << 82 >>, Fill(84, 97) \o << 82 >>, Fill(75, 97), Fill(88, 97), Fill(255, 102) >>
 VerVals == << << 48, 46, 57, 46, 54, 52 >>,
              << 48, 46, 57, 46, 53, 56 >>,
@@ -138,6 +139,7 @@ VerVals == << << 48, 46, 57, 46, 54, 52 >>,
              << 48, 46, 57, 46, 54, 32, 52 >>,
              << 48, 46, 49, 48, 46, 54, 52 >> >>
 Ver064 == << 48, 46, 57, 46, 54, 52 >>
+CapsOnly(v) == EncRouterAddress(9, Zeros(8), << 83, 83, 85, 50 >>, << << << 99, 97, 112, 115 >>, v >> >>)
 CapAddrs == << EncRouterAddress(10, Zeros(8), << 78, 84, 67, 80, 50 >>, << << KHostG, << 49, 46, 50, 46, 51, 46, 52 >> >>, << KPortG, << 56, 48, 56, 48 >> >> >>),
               EncRouterAddress(10, Zeros(8), << 83, 83, 85, 50 >>, << << KHostG, << 58, 58, 49 >> >>, << KPortG, << 56, 48, 56, 48 >> >> >>),
               EncRouterAddress(10, Zeros(8), << 78, 84, 67, 80 >>, << << KHostG, << 50, 48, 48, 49, 58, 100, 98, 56, 58, 58, 49 >> >>, << KPortG, << 56, 48, 56, 48 >> >> >>),
@@ -148,7 +150,8 @@ CapAddrs == << EncRouterAddress(10, Zeros(8), << 78, 84, 67, 80, 50 >>, << << KH
               EncRouterAddress(10, Zeros(8), << >>, << >>),
               EncRouterAddress(10, Zeros(8), << 78, 84, 67, 80, 50, 83, 83, 85, 50 >>, << << KHostG, << 102, 101, 56, 48, 58, 58, 49 >> >>, << KPortG, << 56, 48, 56, 48 >> >> >>) >>
 AddrSetsX == << << >>, << CapAddrs[1] >>, << CapAddrs[2] >>, << CapAddrs[3] >>, << CapAddrs[4] >>, << CapAddrs[5] >>, << CapAddrs[6] >>, << CapAddrs[7] >>, << CapAddrs[8] >>, << CapAddrs[9] >>,
-               << CapAddrs[1], CapAddrs[2] >>, << CapAddrs[3], CapAddrs[6] >>, << CapAddrs[8], CapAddrs[4], CapAddrs[7] >> >>
+               << CapAddrs[1], CapAddrs[2] >>, << CapAddrs[3], CapAddrs[6] >>, << CapAddrs[8], CapAddrs[4], CapAddrs[7] >>,
+               << CapsOnly(<< >>) >>, << CapsOnly(<< 54 >>) >>, << CapsOnly(<< 66, 52 >>), CapsOnly(<< 66 >>) >> >>
 RICapsEnc(opts, addrs, salt) == EncRouterInfo(EncIdentity("key", 7, 4, salt), 7, D8[3], addrs, 0, opts, salt + 50)
 RICapsVecs ==
   [k \in 1..Len(CapsVals) |-> Session(<< "ReadRouterInfo" >>, RICapsEnc(<< << KCapsG, CapsVals[k] >>, << KVerG, Ver064 >> >>, AddrSetsX[2], k), << >>, "ricaps-caps")]
